@@ -182,8 +182,11 @@ fn run_plan(rig: &mut Rig, plan: &Plan) -> Vec<i64> {
                 }
             }
             tokio::time::sleep(tick).await;
-            if plan.sigs.contains(&(i as i64)) {
-                let _ = signal_tx.send(the_signal());
+            // one signal per occurrence of the chunk index: a repeated index is a burst published while
+            // the session is (possibly) in the middle of a frame - more than 16 overrun its signal queue
+            let burst = plan.sigs.iter().filter(|x| **x == i as i64).count();
+            if burst > 0 {
+                for _ in 0..burst { let _ = signal_tx.send(the_signal()); }
                 tokio::time::sleep(tick).await;
             }
         }
